@@ -30,6 +30,15 @@ def gen_sched(r, seed_tag, est_steps=4000, victims=("read", "send", "print", "ma
     """Swarm-style choice of scheduling policy and stall profile for one run."""
     u = r.random()
     s = {"seed": seed_tag}
+    if u < 0.22:
+        # race-directed: rare pre-emption elsewhere, frequent at statements touching shared state
+        s["policy"] = "hot"
+        s["p"] = r.choice([0.0, 0.01, 0.03])
+        s["p_hot"] = r.choice([0.2, 0.5, 0.8])
+        s["pp"] = r.choice([0.1, 0.3, 0.6])
+        s["p_stall"] = r.choice([0.0, 0.3, 0.6])
+        s["stall_max"] = r.choice([0.002, 0.05, 0.15, 0.4])
+        return s
     if u < 0.70:
         s["policy"] = "random"
         s["p"] = r.choice([0.0, 0.01, 0.05, 0.2, 0.5])
@@ -64,7 +73,7 @@ def build(scn, guide=None, max_steps=150_000, max_time=None):
     draws = Draws(scn.get("draws"))
     lat = scn.get("draws", {}).get("lat") or [0.0]
     if max_time is None:
-        max_time = 120.0 + 40.0 * max(lat) * 8 + 3.0 * sum(lat)
+        max_time = 120.0 + 40.0 * max(lat) * 8 + 3.0 * sum(lat) + 3.0 * sum((scn.get("slow") or {}).values())
     k = Kernel(scn["sched"], guide=guide, max_steps=max_steps, max_time=max_time)
     fw = Firmware(k, scn.get("cfg", {}), draws)
     link = Link(k, fw, draws, corrupt={int(a): b for a, b in (scn.get("corrupt") or {}).items()},
